@@ -179,3 +179,132 @@ func attemptLateBurst(env *c13env, c c13case, callsPerCaller int, body []byte) *
 	cleanup()
 	return a
 }
+
+// ---------------------------------------------------------------- adapter, answer handed over late
+
+// hookGate parks the library's inbound reader at the yield point
+// "send.begin" (between the registry lookup and the send on the result
+// channel) for chosen op ids, and reports "request.registered".
+type hookGate struct {
+	mu      sync.Mutex
+	park    map[uint64]chan struct{} // released by closing
+	arrived map[uint64]chan struct{} // closed when the reader is parked
+	reg     map[uint64]chan struct{} // closed when the op id has been registered
+}
+
+var c13gate = &hookGate{park: map[uint64]chan struct{}{}, arrived: map[uint64]chan struct{}{}, reg: map[uint64]chan struct{}{}}
+
+func (g *hookGate) hook(point string, opid uint64) {
+	switch point {
+	case "send.begin":
+		g.mu.Lock()
+		p, a := g.park[opid], g.arrived[opid]
+		delete(g.arrived, opid)
+		g.mu.Unlock()
+		if p != nil {
+			if a != nil {
+				close(a)
+			}
+			<-p
+		}
+	case "request.registered":
+		g.mu.Lock()
+		r := g.reg[opid]
+		delete(g.reg, opid)
+		g.mu.Unlock()
+		if r != nil {
+			close(r)
+		}
+	}
+}
+
+func opidOf(fctx frugal.FContext) uint64 {
+	n, _ := strconv.ParseUint(fctx.RequestHeaders()["_opid"], 10, 64)
+	return n
+}
+
+// attemptAdapterLateHandoff: the peer answers call A at once, but the inbound
+// reader is held after it looked A's registration up and before it delivers;
+// A times out and returns; call B (fresh FContext, the peer never answers it)
+// is issued from the same goroutine; once B is registered the reader is let
+// go and delivers A's answer to whatever it looked up.  B got no response in
+// time: it must report TIMED_OUT at its own bound.
+func attemptAdapterLateHandoff(c c13case, body []byte) *attempt {
+	st := rig.NewScriptTransport()
+	tr := frugal.NewAdapterTransport(st)
+	flagsA, flagsB := &peerFlags{}, &peerFlags{}
+	fctxA, payloadA, _ := newCtx(c, body)
+	fctxB, payloadB, wantB := newCtx(c, body)
+	opA, opB := opidOf(fctxA), opidOf(fctxB)
+	st.OnFrame = func(f []byte) {
+		h, b, err := wire.ParseFrame(f)
+		if err != nil {
+			return
+		}
+		if h["_opid"] == fmt.Sprint(opA) {
+			flagsA.markAnswered()
+			st.Feed(respFrame(h["_opid"], b)) // A is answered at once
+			return
+		}
+		flagsB.markSaw() // B: silent
+	}
+	if err := tr.Open(); err != nil {
+		return &attempt{Returned: true, Harness: "open: " + err.Error()}
+	}
+	park, arrived, regB := make(chan struct{}), make(chan struct{}), make(chan struct{})
+	c13gate.mu.Lock()
+	c13gate.park[opA], c13gate.arrived[opA], c13gate.reg[opB] = park, arrived, regB
+	c13gate.mu.Unlock()
+	var once sync.Once
+	letGo := func() { once.Do(func() { close(park) }) }
+	stop := make(chan struct{})
+	held := make(chan string, 1)
+	go func() { // the schedule
+		select {
+		case <-arrived:
+		case <-stop:
+			held <- "no: the reader never reached send.begin for A"
+			return
+		}
+		select {
+		case <-regB:
+			time.Sleep(time.Millisecond) // B is in its select by now
+			letGo()
+			held <- "yes: released 1ms after B registered"
+		case <-stop:
+			held <- "yes, but B never registered"
+		}
+	}()
+	first := &attempt{}
+	a := invoke(callSpec{c: c, tr: tr, fctx: fctxB, payload: payloadB, want: wantB, flags: flagsB, preTime: c.T() + c13Watchdog,
+		pre: func() {
+			start := time.Now()
+			res, err := tr.Request(fctxA, payloadA)
+			first.Returned = true
+			first.ElapsedNS = int64(time.Since(start))
+			first.Elapsed = time.Duration(first.ElapsedNS).Round(time.Microsecond).String()
+			first.ErrClass, first.ErrText, first.TimedOut, first.Success = classify(res, err)
+		},
+		release: func() {
+			letGo()
+			flagsB.markAnswered()
+			st.Feed(respFrame(fmt.Sprint(opB), body))
+		}})
+	a.RequestHex = fmt.Sprintf("A=%x B=%x", payloadA, payloadB)
+	close(stop)
+	letGo()
+	select {
+	case a.ReaderHeld = <-held:
+	case <-time.After(time.Second):
+	}
+	c13gate.mu.Lock()
+	delete(c13gate.park, opA)
+	delete(c13gate.arrived, opA)
+	delete(c13gate.reg, opB)
+	c13gate.mu.Unlock()
+	if a.Returned {
+		a.First = first
+	}
+	tr.Close()
+	return a
+}
